@@ -5,6 +5,7 @@ import (
 	"io"
 	"log"
 	"net"
+	"sort"
 	"sync"
 	"time"
 
@@ -209,7 +210,7 @@ func (st *stationRT) exchange(sim *core.Sim, s *fbb.Session, conn net.Conn, end 
 		res.stats, res.err = s.Exchange(conn)
 		res.finished = true
 		res.closed, res.closes = end.Closed()
-		sim.Logf("exchange %s done err=%v sent=%v recv=%v", st.name, res.err, res.stats.Sent, res.stats.Received)
+		sim.Logf("exchange %s done err=%v sent=%v recv=%v", st.name, res.err, sortedCopy(res.stats.Sent), sortedCopy(res.stats.Received))
 	})
 }
 
@@ -229,6 +230,7 @@ func runSession(sim *core.Sim, a, b *stationRT, sp SessionPlan, tapAB, tapBA fun
 	sa := a.session(b, sp.AMaster)
 	sb := b.session(a, !sp.AMaster)
 	ga := a.exchange(sim, sa, pipe.WithCaps(link.A, sp.Link.CapsA), link.A, ra)
+	sim.Pause()
 	gb := b.exchange(sim, sb, pipe.WithCaps(link.B, sp.Link.CapsB), link.B, rb)
 	ok = core.WaitAll(sessionBudget, ga, gb)
 	if !ok {
@@ -265,6 +267,7 @@ func runSessionTapSent(sim *core.Sim, a, b *stationRT, sp SessionPlan, tapA, see
 		ca = tapConn{link.A, tapA}
 	}
 	ga := a.exchange(sim, sa, ca, link.A, ra)
+	sim.Pause()
 	gb := b.exchange(sim, sb, pipe.WithCaps(link.B, sp.Link.CapsB), link.B, rb)
 	ok = core.WaitAll(budget, ga, gb)
 	if !ok {
@@ -275,4 +278,10 @@ func runSessionTapSent(sim *core.Sim, a, b *stationRT, sp SessionPlan, tapA, see
 		core.WaitAll(time.Hour, ga, gb)
 	}
 	return
+}
+
+func sortedCopy(xs []string) []string {
+	out := append([]string(nil), xs...)
+	sort.Strings(out)
+	return out
 }
